@@ -185,7 +185,7 @@ def eval_closure(prog, cl, choose, call_hook=None):
     return None
 
 
-def whitelist_worlds(prog):
+def whitelist_worlds(prog, max_len=2):
     """the commits the whitelist predicate is evaluated on: update path present / absent x up to two queued proposals, each of any
     Proposal kind; an Update proposal additionally carries its sender (any Sender kind; a Member sender is the committer or another leaf)"""
     prop = [a for p, a in prog.adts.items() if last_seg(p) == "Proposal" and a["kind"] == "enum" and p.startswith("openmls")][0]
@@ -201,7 +201,9 @@ def whitelist_worlds(prog):
                     elems.append(("Update", sv["name"], "n/a"))
         else:
             elems.append((v["name"], "Member", "own"))
-    lists = [()] + [(e,) for e in elems] + [(e1, e2) for e1 in elems for e2 in elems]
+    lists = [()]
+    for n in range(1, max_len + 1):
+        lists += list(itertools.product(elems, repeat=n))
     return [(path, q) for path in (0, 1) for q in lists]
 
 
@@ -272,7 +274,7 @@ def eval_whitelist(prog, f, path, queued):
 def clause_whitelist(prog, rep, pred_fns):
     rep.floor("non-admin-whitelist", "self-update whitelist predicate", len(pred_fns), 1)
     for f in pred_fns[:1]:
-        worlds = whitelist_worlds(prog)
+        worlds = whitelist_worlds(prog, 3 if rep.tier == "thorough" else 2)
         rows, bad = {}, None
         for path, q in worlds:
             try:
